@@ -18,14 +18,14 @@ import (
 //        | vm0 | vm <n> (x<key> <val>)*n | vt <n> <val>*n
 
 type gval struct {
-	kind   string // bool int float str obj none some nillist list nilmap map struct
-	b      bool
-	i      int64
-	f      float64
-	s      string // str, obj (JSON text)
-	elem   *gval
-	items  []*gval
-	keys   []string
+	kind  string // bool int float str obj none some nillist list nilmap map struct
+	b     bool
+	i     int64
+	f     float64
+	s     string // str, obj (JSON text)
+	elem  *gval
+	items []*gval
+	keys  []string
 }
 
 func (v *gval) ser(l *Line) {
